@@ -859,6 +859,102 @@ def r09_12(chk, P, E):
     return n
 
 
+def r09_15(chk, P, rule='R09.15'):
+    chk.rule(rule, 'a search that runs "until the answer is stable" runs at least once: a loop of vorbisfile.c of the form '
+             '`while(a != b){ a = b; ... &a ... }` (the body copies the other operand into the sentinel and hands the sentinel to a '
+             'search by address) whose sentinel is a local must be entered for every value of b -- every definition of the '
+             'sentinel that reaches the loop from outside is `b + c` with a constant c != 0, or K4 separates the two ranges.  '
+             'A constant start value is equal to b for one stream (a serial number of 0xFFFFFFFF is -1 as an int): the search '
+             'for the link\'s last page is skipped, its end position stays at "not found" and the link is recorded with length 0')
+    n = 0
+    for F in P.functions():
+        if not F.file.endswith('vorbisfile.c') or F.entry is None:
+            continue
+        L = cfg.loops(F)
+        cands = []
+        for h, body in L.items():
+            t = F.blocks[h].get('term')
+            if not t or t.get('cond') is None:
+                continue
+            c = F.ex[F.strip_casts(t['cond'])]
+            if c['k'] != 'bin' or c['op'] != '!=':
+                continue
+            for x, y in ((c['c'][0], c['c'][1]), (c['c'][1], c['c'][0])):
+                a, b = F.ex[F.strip_casts(x)], F.ex[F.strip_casts(y)]
+                if a['k'] != 'ref' or a['decl'].get('kind') != 'var' or b['k'] != 'ref':
+                    continue
+                aid, bid = a['decl']['id'], b['decl']['id']
+                copies = addr = False
+                for e, (blk, _) in F.pos.items():
+                    if blk not in body:
+                        continue
+                    nd = F.ex[e]
+                    if nd['k'] == 'assign' and nd['op'] == '=':
+                        l, r = F.ex[F.strip_casts(nd['c'][0])], F.ex[F.strip_casts(nd['c'][1])]
+                        if l['k'] == 'ref' and l['decl'].get('id') == aid and r['k'] == 'ref' and r['decl'].get('id') == bid:
+                            copies = True
+                    if nd['k'] == 'un' and nd['op'] == '&':
+                        o = F.ex[F.strip_casts(nd['c'][0])]
+                        if o['k'] == 'ref' and o['decl'].get('id') == aid:
+                            addr = True
+                if copies and addr:
+                    cands.append((h, body, t['cond'], aid, bid, a['decl'].get('name'), b['decl'].get('name')))
+        if not cands:
+            continue
+        # definitions of the sentinel outside the loop
+        for (h, body, cond, aid, bid, an, bn) in cands:
+            defs = []
+            for e, (blk, _) in F.pos.items():
+                if blk in body:
+                    continue
+                nd = F.ex[e]
+                if nd['k'] == 'decl':
+                    for v in nd['vars']:
+                        if v.get('id') == aid:
+                            defs.append((e, v.get('init')))
+                elif nd['k'] == 'assign':
+                    l = F.ex[F.strip_casts(nd['c'][0])]
+                    if l['k'] == 'ref' and l['decl'].get('id') == aid:
+                        defs.append((e, nd['c'][1] if nd['op'] == '=' else None))
+            ok = bool(defs)
+            why = []
+            for e, init in defs:
+                good = False
+                if init is not None:
+                    i_ = F.ex[F.strip_casts(init)]
+                    if i_['k'] == 'bin' and i_['op'] in ('+', '-'):
+                        l, r = F.ex[F.strip_casts(i_['c'][0])], i_['c'][1]
+                        cv = common.const_val(F, r)
+                        if l['k'] == 'ref' and l['decl'].get('id') == bid and isinstance(cv, int) and cv % (2 ** 32) != 0:
+                            good = True
+                    if i_['k'] == 'bin' and i_['op'] == '+' and not good:
+                        r, l = F.ex[F.strip_casts(i_['c'][1])], i_['c'][0]
+                        cv = common.const_val(F, l)
+                        if r['k'] == 'ref' and r['decl'].get('id') == bid and isinstance(cv, int) and cv % (2 ** 32) != 0:
+                            good = True
+                if not good:
+                    ok = False
+                    why.append(f'`{F.s(e)[:50]}`')
+            if not ok and defs:
+                # K4: do the ranges of the two operands overlap where the loop is first reached?
+                seen = []
+
+                class H(absint.Hooks):
+                    def on_edge(self, A, env, c, truth):
+                        if c == cond and A.final and not truth and not env.get('$it'):
+                            seen.append(1)
+                A = absint.Analyzer(P, F, hooks=H(), unroll=1)
+                A.run()
+                if not seen:
+                    ok = True
+            n += 1
+            chk.ob(rule, F.name, f'stable-search-runs-once:{an}', ok, F.where(cond),
+                   f'`while({an}!={bn})`: every start value of {an} differs from {bn}' if ok else
+                   f'`while({an}!={bn})` copies {bn} into {an} and searches with &{an}, but the start value {", ".join(why)} can equal {bn}: '
+                   'for that value the search never runs and what it was to find keeps its "not found" value')
+    return n
+
+
 def run(chk, P):
     r09_7(chk, P)
     chk.floor('R09.7', 4)
@@ -895,6 +991,8 @@ def run(chk, P):
     chk.floor('R09.10', 1)
     r09_11(chk, P)
     chk.floor('R09.11', 5)
+    r09_15(chk, P)
+    chk.floor('R09.15', 1)
     import frames
     frames.c09(chk, P)
     chk.trusted += ['clang 14 front end', 'exact evaluation of subscript expressions for L = 0,1,2 (linear forms)', 'K4 symbolic bounds']
